@@ -24,6 +24,48 @@ class ReplayDivergence(Exception):
     pass
 
 
+class _OSWorker(threading.Thread):
+    """Long-lived OS thread that runs the bodies of logical threads one after the other.  Logical threads are mapped
+    onto a small set of reusable OS threads because BLAS/LAPACK libraries allocate per-calling-thread buffers and
+    stall after a few hundred distinct threads have called into them."""
+    free = []
+    lock = threading.Lock()
+
+    def __init__(self):
+        super().__init__(daemon=True, name="verif-sched-worker")
+        self.job = None
+        self.go = threading.Semaphore(0)
+
+    def run(self):
+        while True:
+            self.go.acquire()
+            job, self.job = self.job, None
+            try:
+                job()
+            finally:
+                with _OSWorker.lock:
+                    _OSWorker.free.append(self)
+
+    @classmethod
+    def submit(cls, job):
+        with cls.lock:
+            w = cls.free.pop() if cls.free else None
+        if w is None:
+            w = cls()
+            w.start()
+        w.job = job
+        w.go.release()
+        return w
+
+
+class _Starter:
+    def __init__(self, body):
+        self.body = body
+
+    def start(self):
+        _OSWorker.submit(self.body)
+
+
 class LThread:
     def __init__(self, sched, tid, fn, name):
         self.sched, self.tid, self.fn, self.name = sched, tid, fn, name
@@ -32,7 +74,7 @@ class LThread:
         self.started = False
         self.blocked_on = None
         self.exc = None
-        self.thread = threading.Thread(target=self._body, name=f"L{tid}:{name}", daemon=True)
+        self.thread = _Starter(self._body)
 
     def _body(self):
         self.sem.acquire()
@@ -309,9 +351,12 @@ def explore(make_execution, bound, check, prefix=(), max_executions=None, stats=
         if max_executions and stats["executions"] >= max_executions:
             stats["hit_execution_cap"] = True
             break
+        cum = [0]
+        for p, c in zip(x.points, x.choices):
+            cum.append(cum[-1] + (1 if (c != 0 and p["running_enabled"]) else 0))
         for i in range(len(pre), len(x.points)):
             p = x.points[i]
-            cost = x.preemptions_before(i)
+            cost = cum[i]
             if p["running_enabled"]:
                 cost += 1
             if cost > bound:
